@@ -1,7 +1,6 @@
 package vrpc
 
 import (
-	"encoding/json"
 	"fmt"
 	"sort"
 	"strings"
@@ -96,7 +95,7 @@ func (d *hookDB) NewIterator(prefix []byte, withUpperBound bool) (db.Iterator, e
 
 var _ db.KeyValueStore = (*hookDB)(nil)
 
-// tearKind names how a response fails to be explained by either head.
+// tearKind names how a response fails to be explained by any head (observation key).
 func tearKind(rp *reply) string {
 	if rp.Panic != "" {
 		return "handler-panic"
@@ -130,20 +129,28 @@ func family(m string) string {
 	return "block"
 }
 
-// tornClass: responses that no head explains all stem from reads that are not isolated
-// from a concurrent head change; they are classified by method family and by how the
-// response is wrong, the method / block-id kind / interleaving point go into the witness.
-func tornClass(q *rq, rp *reply) string {
-	return fmt.Sprintf("torn:%s:%s", family(q.M), tearKind(rp))
+// quiescentViolation reports a response that a node with nothing going on gives and the model
+// rejects, under the sequential mode's class scheme.
+func (h *history) quiescentViolation(s *snap, ver string, q *rq, rp *reply, m *mm) {
+	w := q.wire()
+	shape := h.u.shape(s, q)
+	h.violation(h.classOf(q, shape, m.kind, nil), fmt.Sprintf("%s %s [%s] on quiescent %s: %s", ver, w.String(), shape, s.describe(), strings.Join(m.list, "; ")),
+		witness{Snapshot: s.describe(), Request: w.String(), Shape: shape, Versions: ver, Mismatches: m.list, Response: rp.short()})
 }
 
-// canonString: response with set-like arrays sorted (Juno fills state diffs from Go maps).
-func canonString(rp *reply) string {
-	if !rp.HasRes {
-		return fmt.Sprintf("E%d/%s/%s", rp.Code, rp.ErrMsg, rp.Panic)
+var tornNoted sync.Map // kind -> *atomic.Int32: keep the first two of each kind as notes
+
+// observeTorn records a response that no head explains and that is wrong only because the
+// head changed while the request was being served. Not a verdict: counted and sampled.
+func (h *history) observeTorn(q *rq, ver string, rp *reply, where, span string, mismatches []string) {
+	kind := family(q.M) + ":" + tearKind(rp)
+	h.r.Count("observed_torn_responses:"+kind, 1)
+	h.r.Count("observed_torn_responses_by_method:"+q.M+":"+tearKind(rp), 1)
+	c, _ := tornNoted.LoadOrStore(kind, new(atomic.Int32))
+	if c.(*atomic.Int32).Add(1) <= 2 {
+		h.r.Note(fmt.Sprintf("observed torn response (not judged) [%s, %s mode, %s backend] %s %s: %s; heads %s; %s; response %s", kind, h.mode, backendName(h.newState), ver,
+			q.wire().String(), where, span, strings.Join(mismatches, "; "), rp.short()))
 	}
-	b, _ := json.Marshal(sortSets(deepCopyJSON(rp.Result)))
-	return string(b)
 }
 
 // focusRequests: requests about the region a transition touches.
@@ -324,11 +331,10 @@ func runInterleave(r *lib.Run, gidx, idx int) {
 				reads := hook.count
 				r.Count("reads_per_request_total:"+level, reads)
 				if m := check(a, ver, q, rp0); !m.ok() {
-					// the quiescent answer is already wrong: that is the sequential mode's business
-					r.Count("interleave_requests_skipped:quiescent_answer_already_wrong", 1)
+					// wrong on a quiescent node: a violation (same classes as the sequential mode)
+					h.quiescentViolation(a, ver, q, rp0, m)
 					continue
 				}
-				quiescentB := "" // canonical form of Juno's own answer when the whole request runs on B (k = 1)
 				for k := 1; k <= reads; k++ {
 					var aerr error
 					hook.reset(level, k, func() { aerr = apply() })
@@ -364,24 +370,22 @@ func runInterleave(r *lib.Run, gidx, idx int) {
 						r.Count("interleaved_response_matches:head-after", 1)
 						continue
 					}
-					// A response that equals what Juno answers on a quiescent head B (or A) is not torn:
-					// it is a plain wrong answer, which the sequential mode reports under its own class.
-					if k == 1 {
-						quiescentB = canonString(rp)
-						r.Count("interleave_trials_skipped:quiescent_answer_on_B_already_wrong", 1)
-						continue
-					}
-					if cs := canonString(rp); cs == quiescentB || cs == canonString(rp0) {
-						r.Count("interleave_trials_skipped:equals_a_quiescent_answer", 1)
-						continue
-					}
-					class := tornClass(q, rp)
-					r.Count("torn_responses:"+q.M+":"+tearKind(rp), 1)
 					pos := fmt.Sprintf("%s committed before %s read %d of %d (%s)", kind, map[string]string{"bc": "blockchain", "db": "database"}[level], k, reads, strings.Join(trace, ","))
-					h.violation(class, fmt.Sprintf("%s %s: %s; response matches neither %s nor %s: vsA: %s | vsB: %s", ver, w.String(), pos, a.describe(), b.describe(),
-						strings.Join(ma.list, "; "), strings.Join(mb.list, "; ")),
-						witness{Snapshot: a.describe() + " -> " + b.describe(), Request: w.String(), Shape: pos, Versions: ver,
-							Mismatches: append(append([]string{"against the head before:"}, ma.list...), append([]string{"against the head after:"}, mb.list...)...), Response: rp.short()})
+					// a handler panic is a violation whatever the schedule
+					if rp.Panic != "" {
+						h.violation("handler-panic:"+q.M, fmt.Sprintf("%s %s: %s; %s", ver, w.String(), pos, rp.Bad),
+							witness{Snapshot: a.describe() + " -> " + b.describe(), Request: w.String(), Shape: pos, Versions: ver, Mismatches: []string{rp.Bad}, Response: rp.short()})
+						continue
+					}
+					// k = 1: the whole request ran on head B with nothing going on - a quiescent answer
+					if k == 1 {
+						h.quiescentViolation(b, ver, q, rp, mb)
+						continue
+					}
+					// Only wrong because the head changed during the request: isolation from concurrent head
+					// changes is outside C08's quantifier (histories, inputs, configurations - not schedules).
+					// Observed, not judged.
+					h.observeTorn(q, ver, rp, pos, a.describe()+" -> "+b.describe(), append(append([]string{"against the head before:"}, ma.list...), append([]string{"against the head after:"}, mb.list...)...))
 				}
 			}
 		}
@@ -560,35 +564,40 @@ func runConcurrent(r *lib.Run, gidx, idx int) {
 				continue
 			}
 			w := o.q.wire()
-			// Torn, or a plain wrong answer that a quiescent node gives as well? Ask a fresh quiescent
-			// node holding each head of the window (once per kind of failure and case).
+			where := fmt.Sprintf("heads %d..%d", o.lo, o.hi)
+			span := fmt.Sprintf("%s .. %s", snaps[o.lo].describe(), snaps[min(o.hi, len(snaps)-1)].describe())
+			if o.rp.Panic != "" {
+				h.violation("handler-panic:"+o.q.M, fmt.Sprintf("%s %s during %s: %s", o.ver, w.String(), where, o.rp.Bad),
+					witness{Snapshot: span, Request: w.String(), Shape: where, Versions: o.ver, Mismatches: []string{o.rp.Bad}, Response: o.rp.short()})
+				continue
+			}
+			// Wrong on a quiescent node, or only wrong because the head moved during the call? Replay the
+			// request on a fresh quiescent node for every head of the window (once per kind of failure and
+			// case): a quiescent answer that disagrees with the model is a violation; otherwise the
+			// response is a torn one - observed, not judged.
 			sig := o.q.M + "/" + tearKind(o.rp) + "/" + first.kind
 			if sigSeen[sig] {
-				r.Count("concurrent_failing_responses_not_reclassified(same kind already reported)", 1)
+				r.Count("concurrent_failing_responses_of_a_kind_already_examined", 1)
 				continue
 			}
 			sigSeen[sig] = true
-			class := tornClass(o.q, o.rp)
-			plain := -1
+			quiescentWrong := false
 			for j := o.lo; j <= o.hi && j < len(snaps); j++ {
 				qe, err := quiescentEnv(snaps[j], newState)
 				if err != nil {
+					r.Inconclusive("cannot rebuild a quiescent node for a head")
 					continue
 				}
-				if canonString(qe.call(o.ver, w)) == canonString(o.rp) {
-					plain = j
-					break
+				rq := qe.call(o.ver, w)
+				r.Count("quiescent_replays", 1)
+				if m := check(snaps[j], o.ver, o.q, rq); !m.ok() {
+					quiescentWrong = true
+					h.quiescentViolation(snaps[j], o.ver, o.q, rq, m)
 				}
 			}
-			if plain >= 0 {
-				class = h.classOf(o.q, h.u.shape(snaps[plain], o.q), check(snaps[plain], o.ver, o.q, o.rp).kind, nil)
-			} else {
-				r.Count("torn_responses:"+o.q.M+":"+tearKind(o.rp), 1)
+			if !quiescentWrong {
+				h.observeTorn(o.q, o.ver, o.rp, where, span, first.list)
 			}
-			h.violation(class, fmt.Sprintf("%s %s: response matches none of the heads %d..%d the node had during the call; vs %s: %s", o.ver, w.String(), o.lo, o.hi,
-				snaps[o.lo].describe(), strings.Join(first.list, "; ")),
-				witness{Snapshot: fmt.Sprintf("%s .. %s", snaps[o.lo].describe(), snaps[min(o.hi, len(snaps)-1)].describe()), Request: w.String(), Versions: o.ver,
-					Shape: fmt.Sprintf("heads %d..%d", o.lo, o.hi), Mismatches: first.list, Response: o.rp.short()})
 		}
 	}
 	r.Count("concurrent_responses", total)
